@@ -9,6 +9,14 @@ The definitions these theorems talk about are **regenerated** from
 explicit (`% 2^32`, `% 2^64` after every operation) and `crypto/subtle` helpers carry their
 preconditions as poison values, so a changed constant, operator, shift or mask in the Go code makes a
 proof below fail. All statements quantify over all of Z_q (and both γ₂), not over samples.
+
+The generated text is alpha-normalised (parameters `a0 a1 …` by position, auxiliary definitions
+`fn.v<k>` in canonical data-flow order), so renaming Go locals/parameters, reordering independent
+assignments, comments and panic texts do not affect these proofs. The comment in front of each
+function in the generated file maps `v<k>` to the Go local; at the time of writing:
+`power2Round.v1 v2` = m, r1; `decompose.v1 … v7` = s, r0, t, c, r0 (final), r1r, r1;
+`highBits/lowBits.v1 v2` = the pair from `decompose`, its component; `makeHint.v1 v2` = v1, r1;
+`useHint.v1 … v5` = m, t, the pair, r1, r0; `centeredAbs.v1` = c; `centeredMax.v1 v2 v3` = aa, ba, c.
 -/
 namespace TinkVerif.Gen.Mldsa
 open TinkVerif
@@ -55,7 +63,7 @@ theorem p2r_arith (a : Nat) (ha : a < 8380417) :
 theorem power2Round_spec (a : Nat) (ha : a < 8380417) :
     power2Round a = ((a + 4095) / 8192, (a + 8380417 - (a + 4095) / 8192 * 8192) % 8380417) := by
   obtain ⟨e1, e2, e3⟩ := p2r_arith a ha
-  unfold power2Round power2Round.r1 power2Round.m
+  unfold power2Round power2Round.v2 power2Round.v1
   simp only [shr13, shl13, e1, e2, sub_spec a _ ha e3]
 
 /-- FIPS 204 Alg. 35 as a characterisation: `a ≡ r1·2^13 + r0 (mod q)` with `r0` in the encoding of
@@ -116,23 +124,23 @@ theorem decompose_spec88 (a : Nat) (ha : a < 8380417) :
       if (a + 95231) / 190464 = 44 then (0, a)
       else ((a + 95231) / 190464, (a + 8380417 - (a + 95231) / 190464 * 190464) % 8380417) := by
   obtain ⟨e1, e2, e3, e4, e5, e6, e7, e8, e9, e10, e11, e12⟩ := dec_arith88 a ha
-  have hs : decompose.s a 95232 = (a + 95231) / 190464 := by
-    unfold decompose.s; simp only [e1]; exact divBy2Gamma2_88 _ (by omega)
-  have hr0 : decompose.r0 a 95232 = (a + 8380417 - (a + 95231) / 190464 * 190464) % 8380417 := by
-    unfold decompose.r0; simp only [hs, shl1, e2, sub_spec a _ ha e3]
-  have ht : decompose.t a 95232 = (a + 95231) / 190464 * 190464 := by
-    unfold decompose.t; simp only [hr0, sub_spec a _ ha e8, e4]
-  have hr1r : decompose.r1r a 95232 = (a + 95231) / 190464 := by
-    unfold decompose.r1r; simp only [ht]
+  have hs : decompose.v1 a 95232 = (a + 95231) / 190464 := by
+    unfold decompose.v1; simp only [e1]; exact divBy2Gamma2_88 _ (by omega)
+  have hr0 : decompose.v2 a 95232 = (a + 8380417 - (a + 95231) / 190464 * 190464) % 8380417 := by
+    unfold decompose.v2; simp only [hs, shl1, e2, sub_spec a _ ha e3]
+  have ht : decompose.v3 a 95232 = (a + 95231) / 190464 * 190464 := by
+    unfold decompose.v3; simp only [hr0, sub_spec a _ ha e8, e4]
+  have hr1r : decompose.v6 a 95232 = (a + 95231) / 190464 := by
+    unfold decompose.v6; simp only [ht]
     rw [divBy2Gamma2_88 _ (Nat.lt_trans e3 (by decide))]; exact e5
-  have hc : decompose.c a 95232 = if (a + 95231) / 190464 = 44 then 1 else 0 := by
-    unfold decompose.c; simp only [ht]
+  have hc : decompose.v4 a 95232 = if (a + 95231) / 190464 = 44 then 1 else 0 := by
+    unfold decompose.v4; simp only [ht]
     rw [toSigned_small _ (Nat.lt_trans e3 (by decide)), ctEq_q1]
     by_cases h : (a + 95231) / 190464 = 44
     · simp only [h, ↓reduceIte]
     · have : ¬ ((a + 95231) / 190464 * 190464 = 8380416) := fun hh => h (e6.mp hh)
       simp only [h, this, ↓reduceIte]
-  unfold decompose decompose.r1 decompose.r0_2
+  unfold decompose decompose.v7 decompose.v5
   simp only [hc, hr1r, hr0]
   by_cases h : (a + 95231) / 190464 = 44
   · simp only [h, ↓reduceIte, select1]
@@ -163,23 +171,23 @@ theorem decompose_spec32 (a : Nat) (ha : a < 8380417) :
       if (a + 261887) / 523776 = 16 then (0, a)
       else ((a + 261887) / 523776, (a + 8380417 - (a + 261887) / 523776 * 523776) % 8380417) := by
   obtain ⟨e1, e2, e3, e4, e5, e6, e7, e8, e9, e10, e11, e12⟩ := dec_arith32 a ha
-  have hs : decompose.s a 261888 = (a + 261887) / 523776 := by
-    unfold decompose.s; simp only [e1]; exact divBy2Gamma2_32 _ (by omega)
-  have hr0 : decompose.r0 a 261888 = (a + 8380417 - (a + 261887) / 523776 * 523776) % 8380417 := by
-    unfold decompose.r0; simp only [hs, shl1, e2, sub_spec a _ ha e3]
-  have ht : decompose.t a 261888 = (a + 261887) / 523776 * 523776 := by
-    unfold decompose.t; simp only [hr0, sub_spec a _ ha e8, e4]
-  have hr1r : decompose.r1r a 261888 = (a + 261887) / 523776 := by
-    unfold decompose.r1r; simp only [ht]
+  have hs : decompose.v1 a 261888 = (a + 261887) / 523776 := by
+    unfold decompose.v1; simp only [e1]; exact divBy2Gamma2_32 _ (by omega)
+  have hr0 : decompose.v2 a 261888 = (a + 8380417 - (a + 261887) / 523776 * 523776) % 8380417 := by
+    unfold decompose.v2; simp only [hs, shl1, e2, sub_spec a _ ha e3]
+  have ht : decompose.v3 a 261888 = (a + 261887) / 523776 * 523776 := by
+    unfold decompose.v3; simp only [hr0, sub_spec a _ ha e8, e4]
+  have hr1r : decompose.v6 a 261888 = (a + 261887) / 523776 := by
+    unfold decompose.v6; simp only [ht]
     rw [divBy2Gamma2_32 _ (Nat.lt_trans e3 (by decide))]; exact e5
-  have hc : decompose.c a 261888 = if (a + 261887) / 523776 = 16 then 1 else 0 := by
-    unfold decompose.c; simp only [ht]
+  have hc : decompose.v4 a 261888 = if (a + 261887) / 523776 = 16 then 1 else 0 := by
+    unfold decompose.v4; simp only [ht]
     rw [toSigned_small _ (Nat.lt_trans e3 (by decide)), ctEq_q1]
     by_cases h : (a + 261887) / 523776 = 16
     · simp only [h, ↓reduceIte]
     · have : ¬ ((a + 261887) / 523776 * 523776 = 8380416) := fun hh => h (e6.mp hh)
       simp only [h, this, ↓reduceIte]
-  unfold decompose decompose.r1 decompose.r0_2
+  unfold decompose decompose.v7 decompose.v5
   simp only [hc, hr1r, hr0]
   by_cases h : (a + 261887) / 523776 = 16
   · simp only [h, ↓reduceIte, select1]
@@ -214,9 +222,9 @@ theorem decompose_fips32 (a : Nat) (ha : a < 8380417) :
 /-! ### HighBits / LowBits / UseHint (Alg. 37, 38, 40) -/
 
 theorem highBits_eq (a g : Nat) : highBits a g = (decompose a g).1 := by
-  unfold highBits highBits.r1 highBits.tup; rfl
+  unfold highBits highBits.v2 highBits.v1; rfl
 theorem lowBits_eq (a g : Nat) : lowBits a g = (decompose a g).2 := by
-  unfold lowBits lowBits.r0 lowBits.tup; rfl
+  unfold lowBits lowBits.v2 lowBits.v1; rfl
 
 theorem neg_gamma88 : neg 95232 = 8285185 := by rw [neg_spec _ (by decide)]
 theorem neg_gamma32 : neg 261888 = 8118529 := by rw [neg_spec _ (by decide)]
@@ -231,7 +239,7 @@ theorem useHint_spec88 (a h : Nat) (ha : a < 8380417) :
       else (decompose a 95232).1 := by
   obtain ⟨f1, f2, f3, f4⟩ := decompose_fips88 a ha
   clear f3 f4
-  unfold useHint useHint.r1 useHint.r0 useHint.m useHint.t useHint.tup
+  unfold useHint useHint.v4 useHint.v5 useHint.v1 useHint.v2 useHint.v3
   have hm : (8380416 / (95232 * 2 % 4294967296) + 4294967296 - 1) % 4294967296 = 43 := by decide
   simp only [neg_gamma88, shl1, hm]
   generalize (decompose a 95232).1 = r1 at f1 ⊢
@@ -261,7 +269,7 @@ theorem useHint_spec32 (a h : Nat) (ha : a < 8380417) :
       else (decompose a 261888).1 := by
   obtain ⟨f1, f2, f3, f4⟩ := decompose_fips32 a ha
   clear f3 f4
-  unfold useHint useHint.r1 useHint.r0 useHint.m useHint.t useHint.tup
+  unfold useHint useHint.v4 useHint.v5 useHint.v1 useHint.v2 useHint.v3
   have hm : (8380416 / (261888 * 2 % 4294967296) + 4294967296 - 1) % 4294967296 = 15 := by decide
   simp only [neg_gamma32, shl1, hm]
   generalize (decompose a 261888).1 = r1 at f1 ⊢
@@ -285,13 +293,13 @@ theorem useHint_spec32 (a h : Nat) (ha : a < 8380417) :
 /-- MakeHint (Alg. 39): 1 iff adding `z` changes the high bits of `r` -/
 theorem makeHint_spec (z g r : Nat) :
     makeHint z g r = if highBits r g ≠ highBits (add r z) g then 1 else 0 := by
-  unfold makeHint makeHint.r1 makeHint.v1; rfl
+  unfold makeHint makeHint.v2 makeHint.v1; rfl
 
 /-! ### centered representatives and the infinity norm -/
 
 theorem centeredAbs_spec (a : Nat) (ha : a < 8380417) :
     centeredAbs a = if a ≥ 4190209 then 8380417 - a else a := by
-  unfold centeredAbs centeredAbs.c
+  unfold centeredAbs centeredAbs.v1
   by_cases hq : a ≥ 4190209
   · have hc : GoSem.ctLessOrEq (4190209 : Int) (Int.ofNat a) = 1 := by
       unfold GoSem.ctLessOrEq
@@ -317,7 +325,7 @@ theorem centeredMax_spec (a b : Nat) (ha : a < 8380417) (hb : b < 8380417) :
     centeredMax a b = if centeredAbs b ≤ centeredAbs a then a else b := by
   have la := centeredAbs_le a ha
   have lb := centeredAbs_le b hb
-  unfold centeredMax centeredMax.c centeredMax.aa centeredMax.ba
+  unfold centeredMax centeredMax.v3 centeredMax.v1 centeredMax.v2
   generalize centeredAbs a = x at la ⊢
   generalize centeredAbs b = y at lb ⊢
   by_cases h : y ≤ x
